@@ -146,6 +146,8 @@ func (k *parker) logger() *device.Logger {
 }
 
 type runner struct {
+	afterRestart bool // the previous step was a restart
+
 	park     *parker
 	lastMac1 [16]byte       // MAC1 of the last initiation a ref party sent
 	lastFrom netip.AddrPort // and where it came from
@@ -253,7 +255,14 @@ func newRunner(sc Scenario, rng *rand.Rand) (*runner, error) {
 	return r, nil
 }
 
-func (r *runner) shiftTimes() {
+// shiftTimes takes the 20 ms flood gap and the 5 s RekeyTimeout throttle out of the way.  Around a
+// restart nothing is shifted (keep): Peer.Start itself must back-date lastSentHandshake, so that a
+// restarted peer can initiate at once whatever it sent before; the restart step waits 25 ms instead,
+// which is longer than the flood gap.
+func (r *runner) shiftTimes(keep bool) {
+	if keep {
+		return
+	}
 	for _, p := range r.configured() {
 		r.w.Dev.VerifShiftHandshakeTimes(cosim.NoisePK(p.rp.Pub), 10*time.Second)
 	}
@@ -474,7 +483,8 @@ func (r *runner) step(si int, sp StepSpec) {
 	}
 	p := r.parties[sp.Party]
 	so := StepObs{Si: si}
-	r.shiftTimes()
+	r.shiftTimes(sp.Op == "restart" || r.afterRestart)
+	r.afterRestart = sp.Op == "restart"
 	switch sp.Op {
 	case "rinit", "rinitkey", "rinitload":
 		r.xid++
@@ -757,6 +767,7 @@ func (r *runner) step(si int, sp StepSpec) {
 		if err := r.w.Dev.Up(); err != nil {
 			return
 		}
+		time.Sleep(25 * time.Millisecond)
 		out := r.w.Take()
 		so.Event = "restart"
 		r.observe(out, &so, nil)
@@ -864,11 +875,11 @@ func anyParty(r *rand.Rand, k int) PartySpec {
 func st(op string, party int) StepSpec { return StepSpec{Op: op, Party: party, Of: party} }
 
 func genScenario(r *rand.Rand, k int) Scenario {
-	tmpl := k % 23
-	main := anyParty(r, k/23+k)
+	tmpl := k % 24
+	main := anyParty(r, k/24+k)
 	pskParty := func() PartySpec { // a configured party whose device-side psk is NOT zero, or a mismatching one
 		l := []PartySpec{{"ok", "rand"}, {"pskmis", "rand"}, {"pskmis", "refzero"}, {"ok", "rand"}, {"pskmis", "zero"}, {"ok", "zero"}}
-		return l[(k/23)%len(l)]
+		return l[(k/24)%len(l)]
 	}
 	forged := []string{"garbage", "wrongkey", "wrongad", "oldad"}
 	switch tmpl {
@@ -943,12 +954,12 @@ func genScenario(r *rand.Rand, k int) Scenario {
 	case 12: // an unauthentic cookie reply before a retransmitted initiation and before a response
 		p := pick(r, okKinds)
 		return Scenario{Parties: []PartySpec{p}, Gen: "forged-cookie-initiator",
-			Steps: []StepSpec{st("kick", 0), {Op: "cookie", Party: 0, Of: 0, Kind: forged[(k/23)%4]}, st("kick", 0),
+			Steps: []StepSpec{st("kick", 0), {Op: "cookie", Party: 0, Of: 0, Kind: forged[(k/24)%4]}, st("kick", 0),
 				{Op: "cookie", Party: 0, Of: 0, Kind: forged[r.Intn(4)]}, st("rresp", 0), st("rdata", 0), st("rinit", 0), st("kick", 0)}}
 	case 13: // the same with the device as responder (receiver = index of its response = keypair index)
 		p := pick(r, okKinds)
 		return Scenario{Parties: []PartySpec{p, pick(r, outKinds)}, Gen: "forged-cookie-responder",
-			Steps: []StepSpec{st("rinit", 0), {Op: "cookie", Party: 1, Of: 0, Kind: forged[(k/23)%4]}, st("rinit", 0),
+			Steps: []StepSpec{st("rinit", 0), {Op: "cookie", Party: 1, Of: 0, Kind: forged[(k/24)%4]}, st("rinit", 0),
 				{Op: "cookie", Party: 0, Of: 0, Kind: forged[r.Intn(4)]}, st("kick", 0), st("rdata", 0), st("rinit", 0)}}
 	case 14: // an authentic cookie reply: MAC2 is then the MAC under that cookie, also across a restart
 		p := pick(r, okKinds)
@@ -965,7 +976,7 @@ func genScenario(r *rand.Rand, k int) Scenario {
 				st("tun", 0), st("setkey", 0), st("kick", 0), st("rresp", 0)}}
 	case 17: // peers configured first, the private key in a later set operation
 		steps := []StepSpec{st("setkey", 0), st("rinit", 0), st("rdata", 0), st("tun", 0), st("kick", 1), st("rresp", 1), st("rdata", 1)}
-		if (k/23)%2 == 1 {
+		if (k/24)%2 == 1 {
 			steps = []StepSpec{st("setkey", 0), st("tun", 0), st("rresp", 0), st("rdata", 0), st("rinit", 1), st("rdata", 1), st("tun", 1)}
 		}
 		return Scenario{Parties: []PartySpec{pskParty(), pick(r, okKinds)}, Gen: "peers-before-key", NoPriv: true, Steps: steps}
@@ -973,13 +984,13 @@ func genScenario(r *rand.Rand, k int) Scenario {
 		p := pick(r, okKinds)
 		steps := []StepSpec{st("kick", 0), {Op: "cookie", Party: 0, Of: 0, Kind: "authentic"}, {Op: "age", Kind: "short"}, st("kick", 0),
 			st("age", 0), st("kick", 0), st("rinit", 0), {Op: "cookie", Party: 0, Of: 0, Kind: "authentic"}, st("rinit", 0), st("age", 0), st("rinit", 0), st("kick", 0)}
-		if (k/23)%2 == 1 { // the cookie answers a response, expires, then the device initiates
+		if (k/24)%2 == 1 { // the cookie answers a response, expires, then the device initiates
 			steps = []StepSpec{st("rinit", 0), {Op: "cookie", Party: 0, Of: 0, Kind: "authentic"}, st("rinit", 0), st("age", 0), st("kick", 0),
 				st("rinit", 0), st("restart", 0), st("kick", 0), st("rresp", 0), st("rdata", 0)}
 		}
 		return Scenario{Parties: []PartySpec{p}, Gen: "cookie-expiry", Steps: steps}
 	case 19: // update_only for an unknown key configures nobody, also after a restart
-		return Scenario{Parties: []PartySpec{pick(r, okKinds), outKinds[(k/23)%2]}, Gen: "update-only-unknown-key",
+		return Scenario{Parties: []PartySpec{pick(r, okKinds), outKinds[(k/24)%2]}, Gen: "update-only-unknown-key",
 			Steps: []StepSpec{st("ghost", 1), st("rinit", 1), st("restart", 0), st("rinit", 1), st("rdata", 1), st("rinit", 0), st("rdata", 0),
 				st("ghost", 1), st("rinit", 1), st("tun", 0)}}
 	case 20: // the private key changes while an initiation is between consumption and response
@@ -991,7 +1002,7 @@ func genScenario(r *rand.Rand, k int) Scenario {
 			first.RespKey = "other"
 		}
 		steps := []StepSpec{st("rinit", 0), st("rdata", 0), first, st("rdata", 0), st("tun", 0), st("rinit", 0), st("rdata", 0), st("tun", 0)}
-		if (k/23)%2 == 1 {
+		if (k/24)%2 == 1 {
 			steps = []StepSpec{first, st("rdata", 0), st("rinit", 0), st("rdata", 0), st("kick", 0), st("rresp", 0), {Op: "rinitkey", Party: 0, Of: 0}, st("rinit", 0), st("rdata", 0)}
 		}
 		return Scenario{Parties: []PartySpec{pskParty(), outKinds[r.Intn(2)]}, Gen: "key-change-in-flight", Steps: steps}
@@ -999,6 +1010,15 @@ func genScenario(r *rand.Rand, k int) Scenario {
 		return Scenario{Parties: []PartySpec{main, pick(r, okKinds)}, Gen: "device-under-load",
 			Steps: []StepSpec{st("rinitload", 0), st("rdata", 0), st("tun", 0), st("rinitload", 1), st("rdata", 1),
 				{Op: "rinitload", Party: 1, Of: 1, MacKey: "other"}, {Op: "rinitload", Party: 0, Of: 0, Ts: "same"}, st("rinitload", 0), st("rdata", 0)}}
+	case 22: // restart right after the device itself sent a handshake message: it must be able to initiate at once
+		p := pick(r, okKinds)
+		steps := []StepSpec{st("kick", 0), st("restart", 0), st("tun", 0), st("rresp", 0), st("rdata", 0), st("tun", 0),
+			st("rinit", 0), st("restart", 0), st("kick", 0), st("rresp", 0), st("rdata", 0)}
+		if (k/24)%2 == 1 {
+			steps = []StepSpec{st("rinit", 0), st("restart", 0), st("tun", 0), st("rresp", 0), st("rdata", 0), st("tun", 0),
+				st("kick", 0), st("restart", 0), st("kick", 0), st("rresp", 0), st("tun", 0)}
+		}
+		return Scenario{Parties: []PartySpec{p}, Gen: "restart-after-own-handshake", Steps: steps}
 	default: // several peers, random interleaving
 		n := 2 + r.Intn(3)
 		var ps []PartySpec
@@ -1166,7 +1186,7 @@ func writeShard(path string, cases []*Case) error {
 
 func main() {
 	seed := flag.Int64("seed", 1, "PRNG seed")
-	n := flag.Int("n", 92, "number of scenarios")
+	n := flag.Int("n", 96, "number of scenarios")
 	shards := flag.Int("shards", 8, "case files")
 	out := flag.String("out", "out/C03", "output directory")
 	replayIn := flag.String("replay", "", "JSON file with scenarios (parties + steps) to run")
